@@ -21,7 +21,7 @@ func hnetPerfect(tr *netsim.Truth) *hnetFlows {
 		var c hnetConn
 		for s, d := range []*hnetDir{&c.Client, &c.Server} {
 			t := &tr.Conns[i].Dirs[s]
-			d.IP, d.Port, d.HasStart = ipString(t.IP), int(t.Port), true
+			d.IP, d.Port, d.HasStart = addrString(t.Addr), int(t.Port), true
 			d.Stream = append([]byte(nil), t.Expect...)
 			if t.Missing && t.LaterData {
 				d.Skipped = 7
@@ -66,7 +66,7 @@ func TestHnetOracleSensitivity(t *testing.T) {
 			if w.Err != "" {
 				t.Fatalf("seed %d: %s", seed, w.Err)
 			}
-			netsim.WriteCapture(w, netsim.DrawCaptureSpec(tape, p)) // the snap length decides what the capture holds
+			netsim.WriteCapture(w, netsim.DrawCaptureSpec(tape, p, w)) // the snap length decides what the capture holds
 			tr := netsim.ComputeTruth(w)
 			if v := hnetVerdict(hnetPerfect(tr), tr, p); len(v) != 0 {
 				t.Fatalf("seed %d: a report equal to the ground truth is rejected: %v", seed, v)
@@ -137,6 +137,11 @@ func TestHnetOracleSensitivity(t *testing.T) {
 				f = hnetPerfect(tr)
 				f.Conns[i].Client.Port ^= 1
 				expect(seed, "wrong port", hnetVerdict(f, tr, p), "endpoint-mismatch")
+				if tr.Conns[i].Dirs[1].V6 {
+					f = hnetPerfect(tr)
+					f.Conns[i].Server.IP += "0" // another address, still well formed
+					expect(seed, "ipv6 address wrong", hnetVerdict(f, tr, p), "endpoint-mismatch")
+				}
 			}
 			f := hnetPerfect(tr)
 			f.Conns = f.Conns[:len(f.Conns)-1]
@@ -147,7 +152,12 @@ func TestHnetOracleSensitivity(t *testing.T) {
 			if len(tr.Conns) > 1 {
 				f = hnetPerfect(tr)
 				f.Conns[0], f.Conns[1] = f.Conns[1], f.Conns[0]
-				expect(seed, "connections out of order", hnetVerdict(f, tr, p), "endpoint-mismatch")
+				// the statement does not fix the order of the listing: connections
+				// are matched by their endpoints
+				if v := hnetVerdict(f, tr, p); len(v) != 0 {
+					t.Fatalf("seed %d: connections listed in another order rejected: %v", seed, v)
+				}
+				fired["connections out of order"]++
 			}
 			// reassembled datagrams
 			if n := len(tr.Reasm); n > 0 {
@@ -178,11 +188,41 @@ func TestHnetOracleSensitivity(t *testing.T) {
 		}
 	}
 	for _, what := range []string{"flipped stream bit", "stream one byte short", "last byte repeated", "data beyond the hole", "extra byte", "skipped without a hole", "hole not signalled",
-		"client and server swapped", "either labelling accepted without SYN", "endpoints swapped under the streams", "wrong port", "connection missing", "connection listed twice", "connections out of order", "reassembled datagram missing",
+		"client and server swapped", "either labelling accepted without SYN", "endpoints swapped under the streams", "wrong port", "connection missing", "connection listed twice", "connections out of order", "ipv6 address wrong", "reassembled datagram missing",
 		"reassembled payload corrupted", "reassembled raw bytes corrupted", "reassembled source wrong", "reassembled entry not decoded", "unknown datagram listed", "reassembled out of order"} {
 		if fired[what] == 0 {
 			t.Errorf("corruption %q was never exercised", what)
 		}
 	}
 	t.Logf("corruptions exercised: %v", fired)
+}
+
+// The textual form of IPv6 addresses the oracle expects (RFC 5952 section 4
+// and its examples; written without net/netip).
+func TestHnetIP6String(t *testing.T) {
+	for _, c := range []struct {
+		groups [8]uint16
+		want   string
+	}{
+		{[8]uint16{0x2001, 0xdb8, 0, 0, 0, 0, 0, 1}, "2001:db8::1"},
+		{[8]uint16{0x2001, 0xdb8, 0, 0, 1, 0, 0, 1}, "2001:db8::1:0:0:1"},    // first of two equal runs
+		{[8]uint16{0x2001, 0xdb8, 0, 1, 1, 1, 1, 1}, "2001:db8:0:1:1:1:1:1"}, // a single zero group is not shortened
+		{[8]uint16{0x2001, 0, 0, 1, 0, 0, 0, 1}, "2001:0:0:1::1"},            // the longest run
+		{[8]uint16{0, 0, 0, 0, 0, 0, 0, 0}, "::"},
+		{[8]uint16{0, 0, 0, 0, 0, 0, 0, 1}, "::1"},
+		{[8]uint16{1, 0, 0, 0, 0, 0, 0, 0}, "1::"},
+		{[8]uint16{0xfe80, 0, 0, 0, 0x0211, 0x22ff, 0xfe33, 0x4455}, "fe80::211:22ff:fe33:4455"},
+		{[8]uint16{0x2001, 0x0db8, 0x00a0, 0x000b, 0xabcd, 0xef01, 0x2345, 0x6789}, "2001:db8:a0:b:abcd:ef01:2345:6789"},
+		{[8]uint16{0, 0, 0, 0, 0, 0xffff, 0xc000, 0x0201}, "::ffff:192.0.2.1"}, // section 5
+		{[8]uint16{0, 0, 0, 0, 0, 0, 0xc000, 0x0201}, "::c000:201"},
+		{[8]uint16{0, 1, 0, 0, 2, 0, 0, 0}, "0:1:0:0:2::"},
+	} {
+		var a [16]byte
+		for i, g := range c.groups {
+			a[2*i], a[2*i+1] = byte(g>>8), byte(g)
+		}
+		if got := ip6String(a); got != c.want {
+			t.Errorf("%x: %q, want %q", a, got, c.want)
+		}
+	}
 }
